@@ -660,16 +660,48 @@ func c18Describe(hist []int) string {
 
 func c18Run(dir string, hist []int) (sig, msg string) {
 	final := hist[len(hist)-1]
-	sc := &world.Scenario{Nodes: T3m(), Bound: 0, Horizon: 400, Name: "C18/history"}
+	sc := &world.Scenario{Nodes: T3m(), Bound: 0, Horizon: 800, Name: "C18/history"}
+	// histories of two or more contents: the probing clients connect BEFORE the last change as well (judged by the content
+	// in force then) and again after it, so that whatever the admission path remembers about earlier connections is there
+	interleaved := len(hist) > 1
+	boot := hist
+	if interleaved {
+		boot = hist[:len(hist)-1]
+	}
+	nA := 0
+	if interleaved {
+		for _, ip := range c18Probe {
+			cs := ClientOf([]Req{GetReq(keysA[0]), GetReq(keysB[0])}, true)
+			cs.IP = ip
+			sc.Clients = append(sc.Clients, cs)
+		}
+		nA = len(c18Probe)
+		batchADone := func(w *world.World) bool {
+			for i := 0; i < nA; i++ {
+				c := w.Clients[i]
+				if !c.Accepted {
+					return false
+				}
+				if !c.ProxyClosed && c.NReplies < 2 {
+					return false
+				}
+			}
+			return true
+		}
+		sc.Faults = []world.Fault{{Kind: "whitelist", Dir: dir, Text: c18File(final), Gate: batchADone}}
+	}
 	for _, ip := range c18Probe {
 		cs := ClientOf([]Req{GetReq(keysA[0]), GetReq(keysB[0])}, true)
 		cs.IP = ip
+		if interleaved {
+			cs.ConnectGate = func(w *world.World) bool { return w.FaultsDone() }
+		}
 		sc.Clients = append(sc.Clients, cs)
 	}
 	var herr error
 	sc.AfterBoot = func(w *world.World) {
 		authip.VerifReset()
-		for _, st := range hist {
+		for _, st := range boot {
 			if err := os.WriteFile(filepath.Join(dir, "authip.yaml"), []byte(c18File(st)), 0o644); err != nil {
 				herr = err
 				return
@@ -687,47 +719,52 @@ func c18Run(dir string, hist []int) (sig, msg string) {
 	if w.Panic != nil {
 		return "crash", fmt.Sprint(w.Panic)
 	}
-	prev := -1
-	if len(hist) > 1 {
-		prev = hist[len(hist)-2]
-	}
-	for i, c := range w.Clients {
-		ip := c18Probe[i]
-		ips := fmt.Sprintf("%d.%d.%d.%d", ip[0], ip[1], ip[2], ip[3])
-		adm := c18Admitted(final, ip)
-		if adm {
-			rs, _, _ := world.SplitReplies(c.Received)
-			if c.ProxyClosed || len(rs) != 2 {
-				return "listed-address-rejected", fmt.Sprintf("history %s: client from %s must be served but got %q (closed=%v)", c18Describe(hist), ips, c.Received, c.ProxyClosed)
+	judge := func(clients []*world.Client, upto int, when string) (string, string) {
+		state := hist[upto]
+		for i, c := range clients {
+			ip := c18Probe[i]
+			ips := fmt.Sprintf("%d.%d.%d.%d", ip[0], ip[1], ip[2], ip[3])
+			if c18Admitted(state, ip) {
+				rs, _, _ := world.SplitReplies(c.Received)
+				if c.ProxyClosed || len(rs) != 2 {
+					return "listed-address-rejected", fmt.Sprintf("history %s: client from %s connecting %s must be served but got %q (closed=%v)", c18Describe(hist), ips, when, c.Received, c.ProxyClosed)
+				}
+				continue
 			}
-			continue
-		}
-		if !c.ProxyClosed || len(c.Received) > 0 {
-			s := "unlisted-address-admitted"
-			if prev >= 0 && c18Admitted(prev, ip) && c18Enabled(prev) {
-				s = "removed-address-still-admitted"
-			} else if len(hist) > 1 {
-				for _, st := range hist[:len(hist)-1] {
+			if !c.ProxyClosed || len(c.Received) > 0 {
+				s := "unlisted-address-admitted"
+				for _, st := range hist[:upto] {
 					if c18Enabled(st) && c18Admitted(st, ip) {
 						s = "removed-address-still-admitted"
 					}
 				}
+				return s, fmt.Sprintf("history %s: client from %s connecting %s is not in the list in force but was not rejected (received %q, closed=%v)", c18Describe(hist), ips, when, c.Received, c.ProxyClosed)
 			}
-			return s, fmt.Sprintf("history %s: client from %s is not in the final list but was not rejected (received %q, closed=%v)", c18Describe(hist), ips, c.Received, c.ProxyClosed)
 		}
-	}
-	// nothing of a rejected client reached a backend
-	for _, rec := range w.DataCmds("") {
-		_ = rec
+		return "", ""
 	}
 	nAdm := 0
+	if interleaved {
+		if s, m := judge(w.Clients[:nA], len(hist)-2, "before the last change"); s != "" {
+			return s, m
+		}
+		for _, ip := range c18Probe {
+			if c18Admitted(hist[len(hist)-2], ip) {
+				nAdm++
+			}
+		}
+	}
+	if s, m := judge(w.Clients[nA:], len(hist)-1, "after the last change"); s != "" {
+		return s, m
+	}
+	// nothing of a rejected client reached a backend
 	for _, ip := range c18Probe {
 		if c18Admitted(final, ip) {
 			nAdm++
 		}
 	}
 	if got := len(w.DataCmds("")); got != 2*nAdm {
-		return "rejected-client-forwarded", fmt.Sprintf("history %s: %d admitted clients sent 2 requests each, but backends received %d commands", c18Describe(hist), nAdm, got)
+		return "rejected-client-forwarded", fmt.Sprintf("history %s: %d admitted connections sent 2 requests each, but backends received %d commands", c18Describe(hist), nAdm, got)
 	}
 	return "", ""
 }
